@@ -102,7 +102,8 @@ impl Res {
     }
     pub fn value(&self, p: u128) -> u128 {
         let raw = ((self.hi as u128) << 64) | self.lo as u128;
-        match self.sel % 12 {
+        let bit = |k: u64| 1u128 << (k % 128);
+        match self.sel % 16 {
             0 => 0,
             1 => 1 % p,
             2 => 2 % p,
@@ -111,6 +112,12 @@ impl Res {
             5 => p / 2,
             6 => (p / 2 + 1) % p,
             7 => (p / 2).saturating_sub(1),
+            // structured operands: single bits, sparse words, long runs of zeros / ones
+            8 => bit(self.lo) % p,
+            9 => (bit(self.lo) | bit(self.hi)) % p,
+            10 => (bit(self.lo) | bit(self.hi) | 1) % p,
+            11 => (bit(self.lo).wrapping_sub(1)) % p,
+            12 => ((raw % p) >> (self.hi % 96)) << (self.hi % 96),
             _ => raw % p,
         }
     }
@@ -227,7 +234,7 @@ fn res_strategy() -> impl Strategy<Value = Res> {
 impl SubCheckT for FfRandom {
     type Case = FfCase;
     const NAME: &'static str = "finite_field_primes";
-    const RULE: &'static str = "for each of the 7 exported primes (and the small ones): triples of residues drawn from {0,1,2,P-1,P-2,P/2,P/2+-1} and uniformly random 128-bit values reduced mod P; add/mul/sub compared with the harness's overflow-free modular arithmetic, all semiring laws, (a+b)-b = a, a-a = 0, new(v) = v mod P for v up to u128::MAX. Non-trivial: pairwise distinct residues > 1";
+    const RULE: &'static str = "for each of the 7 exported primes (and the small ones): triples of residues drawn from {0,1,2,P-1,P-2,P/2,P/2+-1}, structured values (single bits 2^k, sparse words 2^j+2^k(+1), 2^k-1, values with their low bits cleared) and uniformly random 128-bit values, all reduced mod P; add/mul/sub compared with the harness's overflow-free modular arithmetic, all semiring laws, (a+b)-b = a, a-a = 0, new(v) = v mod P for v up to u128::MAX. Non-trivial: pairwise distinct residues > 1";
     fn cases(tier: Tier) -> u32 {
         tier.pick(200_000, 2_000_000)
     }
